@@ -301,6 +301,95 @@ func (x *Exec) builtinExtern(st *State, key string, c *ssa.CallCommon, a []*Val,
 	case "crypto/hmac.Equal", "bytes.Equal":
 		use()
 		return boolVal(tEq(T(0), T(1))), true, nil
+	// ---- encodings / hashes (uninterpreted, deterministic) ----
+	case "encoding/hex.EncodeToString":
+		use()
+		return str(x.ufApp("hex", SStr, T(0))), true, nil
+	case "encoding/hex.DecodeString":
+		use()
+		// (bytes, err): err == nil ==> hex(bytes) == lower(s) is NOT assumed; only hexdec determinism and hexdec(hex(x)) == x
+		x.axiomsOn["hexdec"] = true
+		b := x.ufApp("hexdec", SStr, T(0))
+		okv := x.ufApp("hexvalid", SBool, T(0))
+		e := x.D.fresh("hexerr", SErr)
+		x.assume(st, tEq(tEq(e, errNil), okv))
+		return &Val{K: VTuple, Typ: rt, F: []*Val{str(b), scalar(e, nil)}}, true, nil
+	case "encoding/base64.(*Encoding).EncodeToString":
+		use()
+		x.axiomsOn["b64"] = true
+		return str(x.ufApp("b64", SStr, T(1))), true, nil
+	case "encoding/base64.(*Encoding).DecodeString":
+		use()
+		x.axiomsOn["b64"] = true
+		b := x.ufApp("b64dec", SStr, T(1))
+		okv := x.ufApp("b64valid", SBool, T(1))
+		e := x.D.fresh("b64err", SErr)
+		x.assume(st, tEq(tEq(e, errNil), okv))
+		return &Val{K: VTuple, Typ: rt, F: []*Val{str(b), scalar(e, nil)}}, true, nil
+	case "crypto/sha256.Sum256":
+		use()
+		return scalar(x.ufApp("sha256", SStr, T(0)), rt), true, nil
+	case "strconv.FormatInt":
+		use()
+		return str(x.ufApp("itoa", SStr, T(0), T(1))), true, nil
+	case "strconv.Itoa":
+		use()
+		return str(x.ufApp("itoa", SStr, T(0), intLit(10))), true, nil
+	// ---- net/http.Header as map[string][]string keyed by the canonical name ----
+	case "net/http.(Header).Set":
+		use()
+		mt := c.Args[0].Type().Underlying().(*types.Map)
+		x.assume(st, tNot(tEq(T(0), intLit(0))))
+		x.mapPut(st, mt, T(0), x.strFn(st, "canon", T(1)), x.sliceFromVals(st, types.Typ[types.String], []*Val{a[2]}))
+		return unitVal, true, nil
+	case "net/http.(Header).Add":
+		use()
+		mt := c.Args[0].Type().Underlying().(*types.Map)
+		x.assume(st, tNot(tEq(T(0), intLit(0))))
+		k := x.strFn(st, "canon", T(1))
+		cur := x.mapGet(st, mt, T(0), k)
+		x.assumeMapWF(st, mt, T(0), k)
+		// append(cur, value) into a fresh array
+		one := x.sliceFromVals(st, types.Typ[types.String], []*Val{a[2]})
+		et := types.Typ[types.String]
+		r := x.newRef(st, "hdr")
+		n := tArith("+", cur.F[2].T, intLit(1))
+		for _, lf := range leavesOf(et) {
+			key := sliceKey(et, lf.Path)
+			h := x.heapGet(st, key, arr(SInt, arr(SInt, lf.S)))
+			nw := x.D.fresh("hdr.elems", arr(SInt, lf.S))
+			i := &Term{Op: "i!ha", S: SInt}
+			body := tAnd(tImp(tAnd(tCmp(">=", i, intLit(0)), tCmp("<", i, cur.F[2].T)), tEq(tSelect(nw, i), tSelect(tSelect(h, cur.F[0].T), i))),
+				tEq(tSelect(nw, cur.F[2].T), tSelect(tSelect(h, one.F[0].T), intLit(0))))
+			x.assume(st, tForall([]*Term{i}, body, []*Term{tSelect(nw, i)}))
+			x.heapSet(st, key, tStore(h, r, nw))
+		}
+		x.mapPut(st, mt, T(0), k, &Val{K: VSlice, Typ: mt.Elem(), F: []*Val{scalar(r, nil), scalar(intLit(0), nil), scalar(n, nil)}})
+		return unitVal, true, nil
+	case "net/http.(Header).Del":
+		use()
+		mt := c.Args[0].Type().Underlying().(*types.Map)
+		x.mapDelete(st, mt, T(0), x.strFn(st, "canon", T(1)))
+		return unitVal, true, nil
+	case "net/http.(Header).Get":
+		use()
+		mt := c.Args[0].Type().Underlying().(*types.Map)
+		k := x.strFn(st, "canon", T(1))
+		v := x.mapGet(st, mt, T(0), k)
+		x.assumeMapWF(st, mt, T(0), k)
+		x.assume(st, x.typeFacts(v, mt.Elem()))
+		first := x.loadElem(st, v.F[0].T, intLit(0), types.Typ[types.String], "", types.Typ[types.String])
+		has := tAnd(x.mapHas(st, mt, T(0), k), tCmp(">", v.F[2].T, intLit(0)))
+		return str(tIte(has, first.T, strEmpty)), true, nil
+	case "net/http.(Header).Values":
+		use()
+		mt := c.Args[0].Type().Underlying().(*types.Map)
+		k := x.strFn(st, "canon", T(1))
+		v := x.mapGet(st, mt, T(0), k)
+		x.assumeMapWF(st, mt, T(0), k)
+		x.assume(st, x.typeFacts(v, mt.Elem()))
+		x.assume(st, x.refFacts(st, v, mt.Elem()))
+		return v, true, nil
 	}
 	if strings.HasPrefix(key, "sync/atomic.") {
 		use()
